@@ -170,6 +170,8 @@ func equals(t types.Type, x, y value) bool {
 		return false
 	case *omap:
 		return x == y.(*omap)
+	case *chanStub:
+		return x == y.(*chanStub)
 	}
 
 	// Since map, func and slice don't support comparison, this
